@@ -755,6 +755,24 @@ func (g *generator) sharedTree(r *gen.Rand, cl []classSpec) *node {
 		}
 		c := cl[ci]
 		leaf := &node{Name: fmt.Sprintf("t%d", t), Class: &c, ClassKey: fmt.Sprintf("s%d", ci)}
+		// what the enclosing role binds differs from role to role of the same class: nothing, extra
+		// TCP channels, an IPC channel, a channel the class binds too (the role's entry wins)
+		switch rb := r.Intn(6); {
+		case t == n-1 && r.Chance(1, 2): // the last descriptor is walked first by the handler
+			leaf.RBind = nil
+		case rb == 0:
+			leaf.RBind = nil
+		case rb == 1:
+			leaf.RBind = []chn{{Name: "c4", Tcp: true}, {Name: "c5", Tcp: true}}
+		case rb == 2:
+			leaf.RBind = []chn{{Name: "c4", Tcp: false}}
+		case rb == 3 && len(c.Bind) > 0:
+			leaf.RBind = []chn{{Name: c.Bind[0].Name, Tcp: !c.Bind[0].Tcp}}
+		case rb == 4:
+			leaf.RBind = []chn{{Name: "c3", Tcp: true}}
+		default:
+			leaf.RBind = g.roleBind(r)
+		}
 		kind := r.Intn(4)
 		if t == n-1 && !plainSeen {
 			kind = 0
@@ -819,6 +837,14 @@ func (g *generator) sharedSpec(mode string, pair bool) simSpec {
 		}
 		if r.Chance(1, 3) {
 			c.Cts = append([]cst{{A: "det", V: r.Pick(attrVals["det"])}}, c.Cts...)
+		}
+		switch r.Intn(4) {
+		case 0:
+			c.Bind = []chn{{Name: "c1", Tcp: true}}
+		case 1:
+			c.Bind = []chn{{Name: "c1", Tcp: true}, {Name: "c2", Tcp: false}}
+		case 2:
+			c.Bind = []chn{{Name: "c2", Tcp: false}}
 		}
 		return c
 	}
